@@ -391,7 +391,8 @@ theorem resolveRefsLoop_rel {rec₁ rec₂ : ResolveDoc} (hrec : RecRel R rec₁
           · exact DirRel.ok h
         · intro sa sb hs
           refine DirRel.bind (Q := SRel R) ?_ ?_
-          · split
+          · rw [hs.draftOf hb hr]
+            split
             · refine (resolveRef_rel hE hrec hr hs hab n₁.dynamicRef).bind ?_
               intro o₁ o₂ ho
               obtain ⟨o₁, sa'⟩ := o₁
